@@ -68,6 +68,7 @@ type Step struct {
 	Rpm      *int `json:"rpm,omitempty"`   // change the RPM law's value from this cycle on
 	Theta    *int `json:"theta,omitempty"` // change the RPM law's threshold from this cycle on
 	Zero     bool `json:"zero,omitempty"`  // an extra UpdateFanSpeed() right after this cycle (elapsed time 0)
+	Hold     int  `json:"hold,omitempty"`  // keep these inputs for Hold further cycles (observed only at their end)
 	// third-party interference applied before this cycle (after the previous one completed)
 	IntMode *int `json:"intMode,omitempty"`
 	IntPwm  *int `json:"intPwm,omitempty"`
@@ -116,6 +117,9 @@ type Obs struct {
 	RpmAvg   float64    `json:"rpmAvg"`
 	RpmReads int        `json:"rpmReads"` // cumulative reads of the RPM device
 	Zero     bool       `json:"zero,omitempty"`
+	// EndedHere: Run returned by itself during this cycle (control error); the cycle's writes are
+	// restoration writes, not regulation writes.
+	EndedHere bool `json:"endedHere,omitempty"`
 }
 
 type LoopResult struct {
@@ -132,6 +136,9 @@ type LoopResult struct {
 	ModeWrites []WriteRec `json:"modeWrites,omitempty"`
 	RestoreLog []WriteRec `json:"restoreLog,omitempty"` // PWM writes after cancellation
 	FirstEval  time.Duration
+	// ProbeEvals: curve evaluations during one extra tick after the last step (-1: not probed)
+	ProbeEvals  int        `json:"probeEvals"`
+	ProbeWrites []WriteRec `json:"probeWrites,omitempty"`
 	Panic      string `json:"panic,omitempty"`
 }
 
@@ -406,12 +413,16 @@ func RunLoop(t *testing.T, sc LoopScenario) (res LoopResult) {
 		synctest.Wait()
 		wIdx := nPre
 		evals := 0
+		var checkEnded func(i int) bool
 		observe := func(min0, max0 int, zero bool) {
+			was := ended
+			checkEnded(len(res.Obs))
 			st := ctl.GetStatistics()
 			o := Obs{FanMin: min0, FanMax: max0, Pwm: rig.Pwm.Get(), Mode: rig.Enable.Get(),
 				Writes: rig.Pwm.Writes(wIdx), Evals: rig.Curve.Evals() - evals,
 				Unexp: st.UnexpectedPwmValueCount, Raises: st.IncreasedMinPwmCount, Offset: st.MinPwmOffset,
-				MinAfter: rig.Fan.GetMinPwm(), RpmAvg: rig.Fan.GetRpmAvg(), RpmReads: rig.Rpm.Reads(), Zero: zero}
+				MinAfter: rig.Fan.GetMinPwm(), RpmAvg: rig.Fan.GetRpmAvg(), RpmReads: rig.Rpm.Reads(), Zero: zero,
+				EndedHere: ended && !was}
 			wIdx = rig.Pwm.NumWrites()
 			evals = rig.Curve.Evals()
 			res.Obs = append(res.Obs, o)
@@ -419,8 +430,10 @@ func RunLoop(t *testing.T, sc LoopScenario) (res LoopResult) {
 		// cycle 1: the fan limits before it are those after start-up; they can only be changed by the
 		// cycle itself (stall branch), which runs after the limits were read - so read-after equals
 		// read-before unless a raise happened, in which case the oracle uses Offset.
-		observe(fanMin, fanMax, false)
-		checkEnded := func(i int) bool {
+		checkEnded = func(i int) bool {
+			if ended {
+				return true
+			}
 			select {
 			case err := <-done:
 				ended = true
@@ -434,6 +447,7 @@ func RunLoop(t *testing.T, sc LoopScenario) (res LoopResult) {
 				return false
 			}
 		}
+		observe(fanMin, fanMax, false)
 		applyFaults := func(s Step) {
 			rig.Pwm.SetReadMode(s.PwmRead)
 			rig.Pwm.SetWriteMode(s.PwmWrite)
@@ -469,7 +483,7 @@ func RunLoop(t *testing.T, sc LoopScenario) (res LoopResult) {
 			}
 			applyFaults(s)
 			min0, max0 := rig.Fan.GetMinPwm(), rig.Fan.GetMaxPwm()
-			time.Sleep(tick)
+			time.Sleep(tick * time.Duration(1+s.Hold))
 			synctest.Wait()
 			observe(min0, max0, false)
 			if s.Zero && !checkEnded(i) {
@@ -482,7 +496,36 @@ func RunLoop(t *testing.T, sc LoopScenario) (res LoopResult) {
 		if !ended {
 			checkEnded(len(sc.Steps))
 		}
+		if !ended && sc.Stop.AtMs == -1 {
+			// probe tick: does regulation still go on? (a fan with an RPM monitor keeps Run alive
+			// after a control error, so "Run returned" cannot be used to see that regulation ended)
+			time.Sleep(tick)
+			synctest.Wait()
+			res.ProbeEvals = rig.Curve.Evals() - evals
+			res.ProbeWrites = rig.Pwm.Writes(wIdx)
+		} else {
+			res.ProbeEvals = -1
+		}
 		finish()
 	})
+	// the cycle after which no further evaluation happens is the one that ended regulation
+	last := -1
+	for i, o := range res.Obs {
+		if !o.Zero {
+			if o.Evals == 0 && last >= 0 && !res.Ended {
+				res.Obs[last].EndedHere = true
+				res.Ended = true
+				res.EndedStep = last
+			}
+			if o.Evals > 0 {
+				last = i
+			}
+		}
+	}
+	if res.ProbeEvals == 0 && last >= 0 && !res.Ended {
+		res.Obs[last].EndedHere = true
+		res.Ended = true
+		res.EndedStep = last
+	}
 	return res
 }
